@@ -771,7 +771,7 @@ fn generate(tier: Tier, rng: &mut Rng, em: &mut Emit) {
         .unwrap_or(false);
     let (n_queries, n_hist) = match tier {
         Tier::Quick => (2_500usize, 250usize),
-        Tier::Thorough => (100_000, 8_000),
+        Tier::Thorough => (60_000, 5_000),
     };
     let mut r2 = rng.fork();
     gen_structured(&mut r2, em);
